@@ -276,9 +276,10 @@ class Ctx:
     def report(self, key, what, replay_obj):
         """register a confirmed (reproduced) violation; filtered through known findings"""
         for f in self.load_known():
-            if f.get("status") == "known" and f["key"] == key:
-                if key not in [k["key"] for k in self.known_hits]:
-                    self.known_hits.append({"key": key, "what": f["what"]})
+            # a known finding names one violation class by its key, or a family of classes by a regular expression over keys
+            if f.get("status") == "known" and (f["key"] == key or ("key_re" in f and re.fullmatch(f["key_re"], key))):
+                if f["key"] not in [k["key"] for k in self.known_hits]:
+                    self.known_hits.append({"key": f["key"], "what": f["what"]})
                 return False
         if key in [v["key"] for v in self.violations]:
             return True
